@@ -46,3 +46,6 @@ package validate
 //@   loop 3 modifies nothing
 //@   loop 4 invariant dsyms: forall k Int :: (lo(ar.OutputDirectorySymlinks) <= k && k < lo(ar.OutputDirectorySymlinks) + rangeindex + 1) ==> vSym(elems(ar.OutputDirectorySymlinks)[k])
 //@   loop 4 modifies nothing
+
+// hex64 is the meaning of this pattern (64 lower-case hex digits); the literal is pinned on the SSA.
+//@ conststr[C11] init:MustCompile#0 = "^[a-f0-9]{64}$"
